@@ -97,7 +97,7 @@ TypesMode(md) == {TCStr(md), TString(md), Vec(TString(md)), Map(TString(md), TIn
 TypesU8 == TypesMode("u8")
 TypesAscii == TypesMode("ascii")
 \* thorough tier only
-TypesExtraC == {TShort, TSChar, Arr(TUChar, 2), Arr(TCStr("bytes"), 2), Struct("S5", <<"x", "y", "z">>, <<TDouble, TUChar, TShort>>),
+TypesExtraC == {TShort, TSChar, Arr(TShort, 2), Arr(TCStr("bytes"), 2), Struct("S5", <<"x", "y", "z">>, <<TDouble, TUChar, TShort>>),
                 Struct("S6", <<"u", "w">>, <<U1, TInt>>), Arr(Arr(TDouble, 1), 3), CharArr(2)}
 TypesExtraCpp == {SM, CppList(Vec(TInt)), CppList(Pair(TInt, TDouble)), CppSet(Pair(TInt, TInt)), UMap(TShort, Vec(TDouble)),
                   Map(TInt, Map(TInt, TInt)), Vec(CppList(TUChar)), Vec(CppSet(TInt)), Pair(Pair(TInt, TInt), Pair(TDouble, TInt)),
@@ -464,7 +464,9 @@ Good(T, lvl) ==
          UNION {{PDict(kd, <<<<PName(T.f[i]), x>>>>) : kd \in DictKinds(lvl), x \in (IF lvl = 0 THEN Good(T.a[i], 0) ELSE Few(Good(T.a[i], lvl + 1)))} : i \in 1..Len(T.f)}
     [] T.t = "array" ->
          LET es == IF lvl = 0 /\ T.n <= 2 /\ IsLeafTy(T.a[1]) THEN Good(T.a[1], 1) ELSE Few(Good(T.a[1], lvl + 1))
-         IN {PSeq(kd, s) : kd \in (IF IsLeafTy(T.a[1]) THEN SeqKinds(lvl) ELSE SeqKinds(lvl) \ {"tuple"}), s \in [1..T.n -> es]}
+             \* (a char* element points into the item: the items must outlive the iteration, so no generator there)
+             kds == IF T.a[1].t = "cstr" THEN SeqKinds(lvl) \ {"gen"} ELSE IF IsLeafTy(T.a[1]) THEN SeqKinds(lvl) ELSE SeqKinds(lvl) \ {"tuple"}
+         IN {PSeq(kd, s) : kd \in kds, s \in [1..T.n -> es]}
     [] T.t = "chararray" ->
          {PBytes(s) : s \in {t \in [1..T.n -> {97, 0, 127}] : TRUE}} \cup {PList([i \in 1..T.n |-> PInt(s[i])]) : s \in [1..T.n -> {98, 0, -128}]}
 
